@@ -172,6 +172,10 @@ ERR_LEAVES = [
     lambda r: S("unbound-symbol-x"),
     lambda r: [S("car"), 1, 2],
     lambda r: [S("car"), 5],
+    lambda r: [S("aref"), [S("vector"), 1, 2], 7],
+    lambda r: [S("aref"), [S("vector"), 1, 2], STR("x")],
+    lambda r: [S("nth"), [S("list"), 1], -1],
+    lambda r: [S("get"), 5, STR("a")],
     lambda r: [S("cons"), 1, 2],
     lambda r: [5, 1],
     lambda r: [S("rethrow")],
